@@ -110,6 +110,89 @@ def _vmixed(nid, cfg):
     return VOld if nid == addr(cfg.n) else VNew
 
 
+CUR = [None]     # bundle of the node whose step is running (for user-supplied serializer functions)
+
+
+def custom_serializer(fileName, data):
+    """User-supplied serializer (conf.serializer): stores the user's object state itself plus the
+    library's bookkeeping `data`."""
+    so = CUR[0].so
+    state = dict((k, v) for k, v in so.__dict__.items() if k in ('applied',))
+    with vfs.vfs_open(fileName, 'wb') as f:
+        f.write(pickle.dumps((state, data), 2))
+
+
+def custom_deserializer(fileName):
+    so = CUR[0].so
+    with vfs.vfs_open(fileName, 'rb') as f:
+        state, data = pickle.loads(f.read())
+    for k, v in state.items():
+        so.__dict__[k] = v
+    return data
+
+
+class ChildExit(BaseException):
+    def __init__(self, code):
+        self.code = code
+
+
+def fork_parent_hook():
+    """os.fork() in the parent: remember the copy-on-write image of what the child will write."""
+    import copy
+    import sys as _sys
+    fr = _sys._getframe(2)          # FakeOs.fork -> this hook; caller of os.fork is Serializer.serialize
+    while fr is not None and fr.f_code.co_name != 'serialize':
+        fr = fr.f_back
+    b = CUR[0]
+    b.extra['child'] = pickle.dumps((copy.deepcopy(fr.f_locals['data']), fr.f_locals['id']), 2)
+    b.extra['childpid'] = 4242
+    return 4242
+
+
+def waitpid_hook(pid, flags):
+    b = CUR[0]
+    if b.extra.get('childdone') is not None:
+        code = b.extra.pop('childdone')
+        b.extra.pop('childpid', None)
+        return (pid, code)
+    if b.extra.get('childpid') == pid:
+        return (0, 0)
+    raise OSError('No child processes')
+
+
+def run_fork_child(b):
+    """Event Cf: the forked child runs the real child path of Serializer.serialize on its image."""
+    import copy
+    data, sid = pickle.loads(b.extra.pop('child'))
+    ser = None
+    for v in b.so.__dict__.values():
+        if isinstance(v, Serializer):
+            ser = v
+    child = copy.copy(ser)
+    for k in list(child.__dict__):
+        if k.endswith('__pid'):
+            child.__dict__[k] = 0
+    vfs.FAKE_OS.fork_hook = lambda: 0
+    vfs.FAKE_OS.exit_hook = _child_exit
+    code = 0
+    try:
+        child.serialize(data, sid)
+    except ChildExit as e:
+        code = e.code
+    finally:
+        vfs.FAKE_OS.fork_hook = fork_parent_hook
+    b.extra['childdone'] = code
+
+
+def _child_exit(code):
+    raise ChildExit(code)
+
+
+vfs.FAKE_OS.fork_hook = fork_parent_hook
+vfs.FAKE_OS.waitpid_hook = waitpid_hook
+vfs.FAKE_OS.exit_hook = _child_exit
+
+
 class Recorder(object):
     """Picklable sink for user-visible callbacks of one node."""
 
@@ -468,7 +551,7 @@ class Config(object):
     def __init__(self, n=3, observers=0, batch=True, batch_bytes=2 ** 16, chunk=2 ** 16, journal=None,
                  dyn=False, obj='list', period=0.01, tmin=0.04, tmax=0.05, fallback=1e9, wait_leader=True,
                  qsize=1000, min_entries=1000000, exact_time=False, fuse=False, members=None, conf_extra=None,
-                 consumers=None, use_fork=False, h_all=False, methods=(), free_restart=True, spare=0, versions=(0, 1, 2)):
+                 consumers=None, use_fork=False, h_all=False, methods=(), free_restart=True, spare=0, versions=(0, 1, 2), serializer=None):
         self.n = n
         self.observers = observers
         self.batch = batch
@@ -490,6 +573,7 @@ class Config(object):
         self.conf_extra = conf_extra or {}
         self.consumers = consumers
         self.use_fork = use_fork
+        self.serializer = serializer    # None | 'custom' (user-supplied serializer/deserializer functions)
         self.versions = tuple(versions)
         self.spare = spare              # absent node ids that a membership change may add
         self.free_restart = free_restart   # restarts do not consume budget (kills do)
@@ -567,6 +651,9 @@ def make_conf(cfg, rec, nid):
         kw['journalFile'] = '/%s/journal' % nid
     if cfg.journal in ('file+dump', 'dump'):
         kw['fullDumpFile'] = '/%s/dump' % nid
+    if cfg.serializer == 'custom':
+        kw['serializer'] = custom_serializer
+        kw['deserializer'] = custom_deserializer
     kw.update(cfg.conf_extra)
     return SyncObjConf(**kw)
 
@@ -585,6 +672,7 @@ def build_node(cfg, nid, members, vfs_obj=None, now=T0, kills=0, extra=None):
     seams.RAND[0] = 0.0      # (a previous closing run may have left another answer behind)
     vfs.activate(b.vfs)
     b.vfs.begin_step()
+    CUR[0] = b
     conf = make_conf(cfg, b.rec, nid)
     cls = OBJ_CLASSES[cfg.obj]
     if not isinstance(cls, type):
@@ -659,6 +747,19 @@ class Stepper(object):
         dead.kills = b.kills + 1
         dead.vfs = b.vfs.clone_files()
         # what a restart would recover (trial restart on a copy of the files)
+        dump = '/%s/dump' % b.nid
+        if dump in b.vfs.files:
+            try:
+                raw = bytes(b.vfs.files[dump])
+                if self.cfg.serializer is None:
+                    import gzip as _gz
+                    pickle.loads(_gz.decompress(raw))
+                else:
+                    pickle.loads(raw)
+            except Exception as e:
+                raise core.Violation('C09 %s killed %s: the dump file on disk is not a complete snapshot (%s: %s)' % (
+                    b.nid, 'between steps' if ev is None else 'before OS-visible mutation %d of %r' % (at, ev[:2]),
+                    type(e).__name__, e), sig='torn-dump')
         try:
             trial = build_node(self.cfg, b.nid, self.cfg.members or self.cfg.voter_ids(), vfs_obj=b.vfs.clone_files(), now=b.now)
         except Exception as e:
@@ -694,6 +795,7 @@ class Stepper(object):
 def run_event(b, ev, cfg, kill_at=None):
     """Execute one node-local event on a live bundle (mutates it)."""
     del OBS[:]
+    CUR[0] = b
     seams.CLOCK[0] = b.now
     seams.CLOCK_DRIFT[0] = 0.0
     seams.RAND[0] = 0.0
@@ -728,6 +830,8 @@ def run_event(b, ev, cfg, kill_at=None):
             # ('put', sid, method, args, kwargs)
             sid = ev[1]
             getattr(b.so, ev[2])(sid, *ev[3], callback=functools.partial(b.rec.cb, sid), **dict(ev[4]))
+        elif kind == 'child':
+            run_fork_child(b)
         elif kind == 'bop':
             # ('bop', sid, consumer index, method, args): a call on a battery
             getattr(_consumers(b.so)[ev[2]], ev[3])(*ev[4], callback=functools.partial(b.rec.cb, ev[1]))
@@ -933,6 +1037,8 @@ class ClusterModel(object):
                 evs.append(('K', n))
             if bud['J'] > 0 and self.cfg.journal:
                 evs.append(('J', n))
+            if self.cfg.use_fork and len(s.extra) > 2 and any(k == 'child' for k, _ in s.extra):
+                evs.append(('Cf', n))
             if bud['V'] > 0:
                 for v in self.cfg.versions:
                     evs.append(('V', n, v))
@@ -1149,6 +1255,8 @@ class ClusterModel(object):
         if kind == 'K':
             bud = self.spend(w, 'K') if len(ev) < 3 else w.budget
             return bud and self.node_step(w, ev[1], ('compact',), budget=bud, label=ev)
+        if kind == 'Cf':
+            return self.node_step(w, ev[1], ('child',), label=ev)
         if kind == 'V':
             bud = self.spend(w, 'V') if ev[-1] != 'free' else w.budget
             return bud and self.node_step(w, ev[1], ('setver', ev[2], ('v', w.nsub)), budget=bud, nsub=w.nsub + 1, label=ev)
